@@ -110,6 +110,10 @@ impl Filter for BasicFilter {
 
             // get relative frequency difference
             let mut freq_diff = interval_local / interval_master;
+            if freq_diff.is_nan() {
+                // both intervals are zero (a repeated measurement): no frequency information
+                freq_diff = 1.0;
+            }
             if (freq_diff - 1.0).abs() > self.freq_confidence {
                 freq_diff = freq_diff.clamp(1.0 - self.freq_confidence, 1.0 + self.freq_confidence);
                 self.freq_confidence *= 2.0;
